@@ -84,6 +84,18 @@ func New(addr string) *TC {
 		resources: map[int][]string{}, nextID: 1 << 20, nextBr: 1000}
 }
 
+// ResetState forgets transactions, locks and the message log (sessions and announced resources stay).
+func (tc *TC) ResetState() {
+	tc.mu.Lock()
+	defer tc.mu.Unlock()
+	tc.events = nil
+	tc.globals = map[string]*Global{}
+	tc.order = nil
+	tc.locks = map[string]string{}
+	tc.waiters = map[int32]chan message.RpcMessage{}
+	tc.Script = nil
+}
+
 // ---- session -----------------------------------------------------------------
 
 type Session struct {
@@ -494,9 +506,10 @@ func (tc *TC) releaseLocks(g *Global) {
 // ---- coordinator-initiated phase two ------------------------------------------
 
 // Request sends a coordinator request on the first open session that announced the
-// resource (or the first open session) and waits for the client's response; ok=false
-// when the wait was abandoned through the returned cancel or the client never answered.
-func (tc *TC) Request(body interface{}, resourceID string, wait func(ch chan message.RpcMessage) (message.RpcMessage, bool)) (message.RpcMessage, bool) {
+// resource (or the first open session) and returns the client's response. The client
+// answers from inside its message handler, so "the handler has returned and no response
+// has arrived" is a deterministic "no reply" (ok=false) - no clock is involved.
+func (tc *TC) Request(body interface{}, resourceID string) (message.RpcMessage, bool) {
 	tc.mu.Lock()
 	var s *Session
 	for _, c := range tc.sessions {
@@ -521,38 +534,31 @@ func (tc *TC) Request(body interface{}, resourceID string, wait func(ch chan mes
 	ch := make(chan message.RpcMessage, 1)
 	tc.waiters[id] = ch
 	tc.mu.Unlock()
-	tc.deliver(s, message.RpcMessage{ID: id, Type: message.GettyRequestTypeRequestSync, Codec: byte(codec.CodecTypeSeata), Body: body})
-	if wait == nil {
-		wait = WaitReal(10 * time.Second)
-	}
-	m, ok := wait(ch)
-	if !ok {
-		tc.mu.Lock()
-		delete(tc.waiters, id)
-		tc.mu.Unlock()
-	}
-	return m, ok
-}
-
-// WaitReal waits on the real clock (free-running harnesses only; the limit is generous and its expiry means "no reply").
-func WaitReal(d time.Duration) func(ch chan message.RpcMessage) (message.RpcMessage, bool) {
-	return func(ch chan message.RpcMessage) (message.RpcMessage, bool) {
-		select {
-		case m := <-ch:
-			return m, true
-		case <-time.After(d):
-			return message.RpcMessage{}, false
-		}
+	done := make(chan struct{})
+	m := message.RpcMessage{ID: id, Type: message.GettyRequestTypeRequestSync, Codec: byte(codec.CodecTypeSeata), Body: body}
+	Spawn("tc-deliver", func() {
+		defer close(done)
+		tc.deliverNow(s, m)
+	})
+	Join(done)
+	tc.mu.Lock()
+	delete(tc.waiters, id)
+	tc.mu.Unlock()
+	select {
+	case r := <-ch:
+		return r, true
+	default:
+		return message.RpcMessage{}, false
 	}
 }
 
-// Wait is the waiting strategy used by Drive*; a cooperative scheduler replaces it.
-var Wait func(ch chan message.RpcMessage) (message.RpcMessage, bool)
+// Join waits for a delivery thread to finish; a cooperative scheduler replaces it.
+var Join = func(done chan struct{}) { <-done }
 
 // BranchRollback asks the client to roll one branch back; ok=false means no response.
 func (tc *TC) BranchRollback(xid string, b *Branch) (message.BranchRollbackResponse, bool) {
 	req := message.BranchRollbackRequest{AbstractBranchEndRequest: message.AbstractBranchEndRequest{Xid: xid, BranchId: b.ID, BranchType: b.Type, ResourceId: b.ResourceID, ApplicationData: b.AppData}}
-	m, ok := tc.Request(req, b.ResourceID, Wait)
+	m, ok := tc.Request(req, b.ResourceID)
 	if !ok {
 		return message.BranchRollbackResponse{}, false
 	}
@@ -562,7 +568,7 @@ func (tc *TC) BranchRollback(xid string, b *Branch) (message.BranchRollbackRespo
 
 func (tc *TC) BranchCommit(xid string, b *Branch) (message.BranchCommitResponse, bool) {
 	req := message.BranchCommitRequest{AbstractBranchEndRequest: message.AbstractBranchEndRequest{Xid: xid, BranchId: b.ID, BranchType: b.Type, ResourceId: b.ResourceID, ApplicationData: b.AppData}}
-	m, ok := tc.Request(req, b.ResourceID, Wait)
+	m, ok := tc.Request(req, b.ResourceID)
 	if !ok {
 		return message.BranchCommitResponse{}, false
 	}
